@@ -67,13 +67,22 @@ typedef tlx::ThreadBarrierMutex Barrier;
 typedef tlx::ThreadBarrierSpin Barrier;
 #endif
 static Barrier* bar;
+#if BARRIER == 2
+#include <atomic>
+// the action is made a visible operation (an atomic access = a scheduling point of the engine), so that an interleaving in which
+// spinning threads are released while the last arriver is still about to run the action is explored
+static std::atomic<unsigned> action_mark;
+#define ACTION_VISIBLE() action_mark.fetch_add(1, std::memory_order_relaxed)
+#else
+#define ACTION_VISIBLE() ((void)0)
+#endif
 static unsigned entered[GENS], left_[GENS], action_runs[GENS], action_when_entered[GENS], action_when_left[GENS];
 static void bbody(void* p)
 {
     (void)p;
     for (unsigned g = 0; g < GENS; ++g) {
         entered[g]++;
-        bar->wait([g]() { action_runs[g]++; action_when_entered[g] = entered[g]; action_when_left[g] = left_[g]; });
+        bar->wait([g]() { ACTION_VISIBLE(); action_runs[g]++; action_when_entered[g] = entered[g]; action_when_left[g] = left_[g]; });
         CHECK(entered[g] == NTHR, "no thread leaves generation g before all participants have entered it");
         CHECK(action_runs[g] == 1, "the action has run exactly once before anyone is released");
         left_[g]++;
